@@ -78,7 +78,8 @@ def _literal(lit):
     return subj, (z3.Complement(rx) if neg else rx)
 
 
-def path_language(eng, target):
+def path_language(eng, target, extra=None):
+    """extra: {ast id of a variable: regex} additional per-variable constraint (a hypothesis being tested)."""
     t = eng.norm(target)
     parts = flatten(t)
     occ = {}
@@ -102,6 +103,8 @@ def path_language(eng, target):
             glob.append(rx)
         elif z3.is_const(sn) and occ.get(sn.get_id()) == 1:
             per_var.setdefault(sn.get_id(), []).append(rx)
+    for vid, rx in (extra or {}).items():
+        per_var.setdefault(vid, []).append(rx)
     pieces = []
     for p in parts:
         if z3.is_string_value(p):
@@ -115,6 +118,53 @@ def path_language(eng, target):
     if glob:
         lang = z3.Intersect(lang, *glob)
     return lang
+
+
+def _empty(eng, lang, timeout_ms):
+    x = z3.String("__regular_lemma_x")
+    s = z3.Solver()
+    s.set("timeout", timeout_ms)
+    s.add(z3.InRe(x, lang))
+    eng.stats["regular_queries"] = eng.stats.get("regular_queries", 0) + 1
+    if s.check() == z3.unsat:
+        eng.stats["regular_proved"] = eng.stats.get("regular_proved", 0) + 1
+        return True
+    return False
+
+
+def _hosts(eng, v):
+    """Decomposed strings (targets of the engine's structural splits) in which variable v occurs exactly once."""
+    out = []
+    for var, _ in eng.subst:
+        full = eng.norm(var)
+        parts = flatten(full)
+        if sum(1 for p in parts if p.eq(v)) == 1 and len(parts) > 1:
+            out.append(full)
+    return out
+
+
+def decide_literal(eng, cond, timeout_ms=3000):
+    """For a literal that constrains one string term regularly (membership, contains / prefix / suffix of a constant,
+    equality with a constant, constant length bounds): True if the path condition entails it, False if it entails its
+    negation, None if the regular over-approximation decides neither.  A side is infeasible when the regular
+    over-approximation of the term itself, or of a decomposed string the term is a part of, becomes empty."""
+    r = _literal(cond)
+    if r is None:
+        return None
+    t, R = r
+    try:
+        tn = eng.norm(t)
+        lang = path_language(eng, tn)
+        hosts = _hosts(eng, tn) if z3.is_const(tn) else []
+        for side, rx in ((True, R), (False, z3.Complement(R))):
+            if _empty(eng, z3.Intersect(lang, rx), timeout_ms):
+                return not side
+            for h in hosts:
+                if _empty(eng, path_language(eng, h, {tn.get_id(): rx}), timeout_ms):
+                    return not side
+    except z3.Z3Exception:
+        return None
+    return None
 
 
 def prove_membership(eng, cond, timeout_ms=5000):
